@@ -25,6 +25,13 @@ Theorem C15_names_reflect_property : forall ops n p,
 Proof. exact C15_histories. Qed.
 Print Assumptions C15_names_reflect_property.
 
+Theorem C15_rejected_write_changes_nothing : forall st i, coherent st ->
+  let st' := snd (nstep st (NWriteBad i)) in
+  (exists e, fst (nstep st (NWriteBad i)) = Raise e) /\ n_prop st' = n_prop st /\ n_cols st' = n_cols st /\
+  forall c, spec_name st' c = spec_name st c.
+Proof. exact write_bad_unchanged. Qed.
+Print Assumptions C15_rejected_write_changes_nothing.
+
 Theorem C15_index_reversal : forall st i c, sig_col st i = Ok c -> 0 <= i -> Z.of_nat c = Z.of_nat (n_cols st) - 1 - i.
 Proof. exact sig_col_reverse. Qed.
 Print Assumptions C15_index_reversal.
